@@ -18,10 +18,13 @@ def rule_generator(eng, rep, fid):
     params = fi.posparams
     count, lower, upper = params[0], params[2], params[3]
     rets = [n for n, d in cfg.g.nodes(data=True) if d["kind"] == "stmt" and isinstance(d["ast"], ast.Return)]
-    if len(rets) != 1:
-        rep.unknown(rule_n, eng.where(fi), "expected one return")
+    if not rets:
+        rep.unknown(rule_n, eng.where(fi), "no return found")
         return
-    r = rets[0]
+    # the main return is the last one in the text; any other (early) return is judged below: it must not be reachable without the final clamp
+    rets.sort(key=lambda n: cfg.ast_of(n).lineno)
+    r = rets[-1]
+    early = rets[:-1]
     rv = cfg.ast_of(r).value
     # returned expression:  R.T  or  R[:, :count].T
     if not (isinstance(rv, ast.Attribute) and rv.attr == "T"):
@@ -82,6 +85,12 @@ def rule_generator(eng, rep, fid):
         rep.bad(rule_c, site, "%s|clamp-loop-count-%d" % (fid, len(clamp_loops)), "expected exactly one final clamp loop over the result columns, found %d" % len(clamp_loops))
         return
     h, st, asg = clamp_loops[0]
+    for r2 in early:
+        if cfg.path_avoiding(cfg.entry, r2, [h]) is not None:
+            rep.bad(rule_c, eng.where(fi, cfg.ast_of(r2)), "%s|early-return-bypasses-clamp" % fid,
+                    "`%s` hands back directions that never went through the final clamp against (%s, %s): they can leave the bounds" % (short(cfg.ast_of(r2), 60), lower, upper))
+        elif ekey(cfg.ast_of(r2).value) != ekey(rv):
+            rep.unknown(rule_c, eng.where(fi, cfg.ast_of(r2)), "a second return with a different value `%s`" % short(cfg.ast_of(r2).value, 50))
     it = st.iter
     trip_ok = isinstance(it, ast.Call) and ekey(it.func) == "range" and len(it.args) == 1 and ekey(it.args[0]) == count \
         and ekey(asg.targets[0].slice) == "(slice(None, None, None), %s)" % ekey(st.target) or ekey(asg.targets[0]) == "%s[:, %s]" % (A, ekey(st.target))
